@@ -36,6 +36,23 @@ def check(run):
             bodies.append(bytes(rng.randrange(256) for _ in range(rng.randrange(1, 24))).hex())
         for body in bodies:
             cases.append("enum_cf_all\t%s\t%s" % (e["name"], body))
+        # the announced length disagreeing with what is there: the variant's own decoder decides, the dispatcher must
+        # not look past / short of the announced length on its own (round-2 seeded change C15-enum-skips-apdu-length)
+        for t in targets:
+            cfb = bytes(S[t]["control"])
+            for _ in range(6 if th else 2):
+                v, b = layouts.gen_struct_value(rng, S[t])
+                if len(b) < 3 or b[2] == 0xff or len(b) > 120:
+                    continue
+                body = b[3:]
+                n = len(body)
+                junk = bytes(rng.randrange(256) for _ in range(rng.randrange(1, 6)))
+                for ln in sorted({0, 1, max(0, n - 2), max(0, n - 1), n, n + 1, n + 2, n + len(junk), 254}):
+                    for tail in (b"", junk):
+                        cases.append("enum\t%s\t%s" % (e["name"], (cfb + bytes([ln]) + body + tail).hex()))
+                if n <= 14:
+                    cases.append("enum_subst\t%s\t%s" % (e["name"], b.hex()))
+                cases.append("enum_trunc\t%s\t%s" % (e["name"], (b + junk).hex()))
         cases.append("enum_all\t%s\t-\t0" % e["name"])
         cases.append("enum_all\t%s\t-\t1" % e["name"])
         if th:
